@@ -13,6 +13,9 @@ def run(cx):
     E.stats_table(cx)
     E.histograms_table(cx)
     E.about_and_cli(cx)
+    E.units_dispatch(cx)
+    E.fault_table(cx)
+    E.beads_stats_table(cx)
     # reading a workbook again returns what is in the file now: no function keeps module-level state
     from . import mef_rules
     mef_rules.no_module_state(cx, ('io', 'transform', 'gate', 'stats', 'mef', 'plot', 'excel_ui'))
